@@ -17,6 +17,14 @@ CHECKS = {
    text="TLC enumerates every placement of SIGINT relative to every worker/coordinator/handler action for 1..3 concurrently extracted sources (invariants NoLeakNormal/NoLeakUnregistered/NoLeakRegistered, liveness SIGINT leads to exit), with the design parameters DROPFIRST (measured from a recorded trace) and REGATOMIC (scanned from decompress_to_ntf) taken from the code; on the real binary SIGINT is raised at the k-th passage of every hook point of every thread (with and without holding the raising thread), at externally swept times, and in turnstile-planned adversarial orders taken from the model's counterexample classes; the oracle is the private TMPDIR after exit, the exit latency and status.",
    note="A VIOLATION is raised only from an observed leftover file / hang / bad status of the real binary; a model violation under scanned parameters is a prediction that must be reproduced (else DRIFT). One SIGINT per run. Promptness bound 5 s.",
    technique="TLA+ model checking (TLC) of signal placements + fault enumeration over hook points + turnstile replay"),
+ "C02": dict(engine="TextLog", category="model_checking", design_ref="DESIGN.md §6 C02",
+   text="TLC checks on every abstract file (dated/undated line sequences, with/without final newline) that the messages tile the file from the first timestamped line to its end, and enumerates the public find_line/find_sysline call sequences modulo the abstract cache state (one shortest sequence per reachable cache state, every call appended: a transition cover) with the result the specification prescribes; each is replayed in-process on the real LineReader/SyslineReader over concrete byte layouts (NUL, 0xFF, CR, blank lines) at block sizes 1..32 and larger, comparing offsets and bytes; end-to-end, files with line lengths chosen relative to the block size (B-1, B, B+1, 2B+-1, >2056-byte parts, many blocks, CRLF, missing final newline) go through the real binary in plain/gz/bz2/xz/tar form and stdout must equal Printed(file) byte for byte.",
+   note="find_sysline at an offset inside a continuation line is specified as a relation (containing or next message); continuation lines never parse as timestamps; block-zero rejections are the recorded finding blockzero-reject (classified by spec/BlockZero.tla evaluated with TLC plus the program's own Stage1 verdict).",
+   technique="TLA+ spec + TLC-generated call-sequence cover replayed on the real readers + e2e byte oracle"),
+ "C12": dict(engine="TextLog", category="model_checking", design_ref="DESIGN.md §6 C12",
+   text="Printed(file) in TextLog.tla does not mention the block size; the same TLC-generated call sequences and generated files as C02 are executed at every block size class (in-process 1..32, size+-1, 64, 4096; end-to-end 64, 65, 127..129, line length +-1, file size +-1, 8096/8097, 65536, 0xFFFFFF) and compared with the B-free oracle, never with 'the default run'. BlockZero.tla gives the one place where the design itself depends on B; TLC evaluates it on every instance and its verdict is compared with the code's Stage1 decision.",
+   note="Known finding blockzero-reject (acceptance heuristic looks only inside block zero) is reported as KNOWN-FINDING for exactly the instances where both BlockZero.tla predicts rejection and the program reports a Stage1 rejection.",
+   technique="TLA+ spec (B-free oracle + BlockZero transcription evaluated by TLC) + replay at every block-size class"),
 }
 NA_REASON = "check not built yet in this session (work in progress; will be claimed when its machinery exists)"
 
@@ -44,6 +52,7 @@ manifest = {
            "source_commits": [h.split(" ")[0] for h in hooks if h.strip()],
            "add_only": True},
  "engines": [
+   {"name": "TextLog", "path": "spec/TextLog.tla", "serves_properties": ["C02", "C12", "C03", "C17", "C11"], "kind_free_text": "TLA+ specification of lines/messages/reader API; BlockZero.tla transcribes the block-zero acceptance"},
    {"name": "S4Run", "path": "spec/S4Run.tla", "serves_properties": ["C01", "C06", "C07", "C18", "C19"], "kind_free_text": "TLA+ specification of workers/channels/coordinator/signal handler/temp files; TraceS4Run.tla validates hook traces; SimS4Run.tla emits behaviours for replay"},
  ],
  "checks": checks,
